@@ -2,6 +2,7 @@ import YaqsModel.Basic.Parse
 import YaqsModel.Model.Pipeline
 import YaqsModel.Model.SJump
 import YaqsModel.Model.Grid
+import YaqsModel.Model.Storage
 /-!
 line protocol for the time-step pipelines, the scheduled-jump matching rule and the time grid
 
@@ -15,6 +16,18 @@ line protocol for the time-step pipelines, the scheduled-jump matching rule and 
   applied <t> <dt> | tj…                              → positions applied, `-` if none
   firing <dt> | times… | tj…                          → grid indices at which `has_scheduled_jump` is true
   grid|gridold <bitsT> <bitsDt>                       → `len` then selected points as IEEE bit patterns (`err` if the code raises)
+
+  result storage (`Model/Storage.lean`; modes analog strong weak, kinds loc diag entropy schmidt pvm):
+  stinit <mode> <numTraj> <shots> <samp> <nMid> <kind> <T> | times…
+        → `rows cols f64|c128 len(results)` then `grid t…` / `scalar T` / `unset`          (`Observable.initialize`)
+  stcols <mode> <samp> <nMid> <nTimes>                 → columns of the array one back-end call returns (`none` for weak)
+  stagg <kind> <cols> | row | row …                    → `values v…` / `nan <len>` / `valueError`   (`aggregate_trajectories`)
+  staggc <kind> <cols> | re im re im … | …             → the same for the real parts, `I`, the same for the imaginary parts
+  stcells | c c ; c c | …                              → concatenation of a table whose cells are vectors
+  strun <mode> <requested> <single> <shots> <samp> <nMid> <kind> <T> | times… | row of trajectory 0 | row of trajectory 1 …
+        → allocation as for `stinit`, `T` stored table (row-major), `R` reduction; `err broadcast <got> <want>` if a row does not fit
+  stweak | slot | slot …   (slot = `none`, `empty`, or `k:v k:v …`)   → `ok k:v …` / `err assertFirstNone`   (`aggregate_measurements`)
+  strunweak <shots> <noisefree> | dict of trajectory 0 | …            → `<None in measurements> S slots… R ok k:v …` / `indexError`
 
 backends: tjm2 tjm1 mcwf lindblad tjm2old.  Booleans are 1/0.  Numbers of `match…firing` are exact rationals.
 -/
@@ -176,4 +189,145 @@ def handle (line : String) : String :=
     | _, _ => "bad-op"
   | _ => "bad-op"
 
-def main : IO Unit := do lineLoop (← IO.getStdin) handle
+/-! ### result storage -/
+open Yaqs.Storage in
+def parseMode? : String → Option Storage.Mode
+  | "analog" => some .analog
+  | "strong" => some .strong
+  | "weak" => some .weak
+  | _ => none
+
+def parseKind? : String → Option Storage.ObsKind
+  | "loc" => some .loc
+  | "diag" => some .diag
+  | "entropy" => some .entropy
+  | "schmidt" => some .schmidt
+  | "pvm" => some .pvm
+  | _ => none
+
+def dtypeTok : Storage.DType → String
+  | .f64 => "f64"
+  | .c128 => "c128"
+
+def timesTok : Storage.TimesAttr → List String
+  | .grid ts => "grid" :: ts.map showRat
+  | .scalar t => ["scalar", showRat t]
+  | .untouched => ["unset"]
+
+def allocToks (a : Storage.Alloc) : List String :=
+  [toString a.rows, toString a.cols, dtypeTok a.dtype, toString a.resultsLen] ++ timesTok a.times
+
+def aggToks : Storage.Agg → List String
+  | .values v => "values" :: v.map showRat
+  | .nan n => ["nan", toString n]
+  | .valueError => ["valueError"]
+
+def mapAll? {α β : Type} (f : α → Option β) : List α → Option (List β)
+  | [] => some []
+  | x :: xs => match f x, mapAll? f xs with
+    | some a, some as => some (a :: as)
+    | _, _ => none
+
+def parseTable? (rows : List (List String)) : Option (List (List Rat)) := mapAll? (parseAll? parseRat?) rows
+
+/-- `re im re im …` → list of pairs -/
+def pairUp : List Rat → Option (List (Rat × Rat))
+  | [] => some []
+  | [_] => none
+  | a :: b :: rest => (pairUp rest).map ((a, b) :: ·)
+
+/-- split a token list at every `";"` token -/
+def splitSemi (ws : List String) : List (List String) :=
+  let rec go (acc : List String) (out : List (List String)) : List String → List (List String)
+    | [] => (acc.reverse :: out).reverse
+    | w :: rest => if w = ";" then go [] (acc.reverse :: out) rest else go (w :: acc) out rest
+  go [] [] ws
+
+def parseKV? (s : String) : Option (Nat × Nat) :=
+  match s.splitOn ":" with
+  | [k, v] => match k.toNat?, v.toNat? with
+    | some k, some v => some (k, v)
+    | _, _ => none
+  | _ => none
+
+def parseDict? (ws : List String) : Option Params.Counts :=
+  if ws = ["empty"] then some [] else if ws.isEmpty then none else parseAll? parseKV? ws
+
+def parseSlot? (ws : List String) : Option (Option Params.Counts) :=
+  if ws = ["none"] then some none else (parseDict? ws).map some
+
+def countsToks (c : Params.Counts) : List String := c.map (fun kv => toString kv.1 ++ ":" ++ toString kv.2)
+
+def slotTok : Option Params.Counts → String
+  | none => "none"
+  | some [] => "empty"
+  | some c => ",".intercalate (countsToks c)
+
+def weakResToks : Except Params.Err Params.Counts → List String
+  | .ok c => "ok" :: countsToks c
+  | .error .assertFirstNone => ["err", "assertFirstNone"]
+  | .error .assertGetState => ["err", "assertGetState"]
+  | .error .indexError => ["err", "indexError"]
+
+def settingsOf (mode numTraj shots samp nMid T : String) (times : List String) : Option Storage.Settings :=
+  match parseMode? mode, numTraj.toNat?, shots.toNat?, parseBool? samp, nMid.toNat?, parseRat? T, parseAll? parseRat? times with
+  | some m, some nt, some sh, some sa, some nm, some t, some ts => some ⟨m, nt, sh, sa, nm, ts, t⟩
+  | _, _, _, _, _, _, _ => none
+
+def handleStorage (line : String) : Option String :=
+  match splitBar (words line) with
+  | [["stinit", mode, numTraj, shots, samp, nMid, kind, T], times] =>
+    some (match settingsOf mode numTraj shots samp nMid T times, parseKind? kind with
+      | some s, some k => joinWith " " (allocToks (Storage.allocate s k))
+      | _, _ => "bad-op")
+  | [["stcols", mode, samp, nMid, nTimes]] =>
+    some (match parseMode? mode, parseBool? samp, nMid.toNat?, nTimes.toNat? with
+      | some m, some sa, some nm, some nt =>
+        match Storage.backendCols ⟨m, 0, 0, sa, nm, List.replicate nt 0, 0⟩ with
+        | some c => toString c
+        | none => "none"
+      | _, _, _, _ => "bad-op")
+  | ["stagg", kind, cols] :: rows =>
+    some (match parseKind? kind, cols.toNat?, parseTable? rows with
+      | some k, some c, some t => joinWith " " (aggToks (Storage.aggregateObs k c t))
+      | _, _, _ => "bad-op")
+  | ["staggc", kind, cols] :: rows =>
+    some (match parseKind? kind, cols.toNat?, (parseTable? rows).bind (mapAll? pairUp) with
+      | some k, some c, some t =>
+        joinWith " " (aggToks (Storage.aggregateObs k c (t.map (·.map Prod.fst))) ++ ["I"]
+          ++ aggToks (Storage.aggregateObs k c (t.map (·.map Prod.snd))))
+      | _, _, _ => "bad-op")
+  | ["stcells"] :: rows =>
+    some (match mapAll? (fun r => parseTable? (splitSemi r)) rows with
+      | some t => joinWith " " (aggToks (Storage.concatCells t))
+      | none => "bad-op")
+  | ["strun", mode, requested, single, shots, samp, nMid, kind, T] :: times :: rows =>
+    some (match requested.toNat?, parseBool? single, parseKind? kind, parseTable? rows with
+      | some rq, some sg, some k, some t =>
+        match settingsOf mode (toString (Storage.effTraj rq sg)) shots samp nMid T times with
+        | some s =>
+          match Storage.runObservable s k (fun i => t.getD i []) with
+          | .ok o => joinWith " " (allocToks o.alloc ++ ["T"] ++ o.trajectories.flatten.map showRat ++ ["R"] ++ aggToks o.results)
+          | .error (.broadcast g w) => s!"err broadcast {g} {w}"
+          | .error .sequence => "err sequence"
+        | none => "bad-op"
+      | _, _, _, _ => "bad-op")
+  | ["stweak"] :: slots =>
+    some (match mapAll? parseSlot? slots with
+      | some ms => joinWith " " (weakResToks (Storage.aggregateMeasurements ms))
+      | none => "bad-op")
+  | ["strunweak", shots, nf] :: dicts =>
+    some (match shots.toNat?, parseBool? nf, mapAll? parseDict? dicts with
+      | some sh, some nf, some ds =>
+        match Storage.runWeakStore sh nf (fun i => ds.getD i []) with
+        | none => "indexError"
+        | some o => joinWith " " ([showBool o.sawNone, "S"] ++ o.slots.map slotTok ++ ["R"] ++ weakResToks o.result)
+      | _, _, _ => "bad-op")
+  | _ => none
+
+def handleAll (line : String) : String :=
+  match handleStorage line with
+  | some r => r
+  | none => handle line
+
+def main : IO Unit := do lineLoop (← IO.getStdin) handleAll
